@@ -141,12 +141,16 @@ CLAIMS['C15'] = dict(
     category='other', design_ref='DESIGN.md section 4 (C15), Appendix A.6/A.9',
     technique='bit-vector abstract interpretation of the short-descriptor walk, fault encoders, CheckDomain / '
               'CheckPermission, DataAbort (VMSA arm), FCSE and TranslateAddressV dispatch to exact tables compared with '
-              'reference models by BDD equality; AST rule on the long-descriptor level loop',
+              'reference models by BDD equality; the stage-1 long-descriptor walk interpreted whole (level loop unrolled) once per '
+              '(T0SZ, T1SZ) pair and compared with a reference of TranslationTableWalkLD; AST rules on the level loop and sibling arms',
     text='For every MVA, TTBR0/1, TTBCR.N 0..7 / PD0 / PD1, SCTLR.AFE/HA and every first/second-level descriptor value: the '
          'descriptor addresses, type decision, translation / access-flag faults with level and domain, and the resulting PA, '
          'domain, AP, XN, PXN, nG, NS, level, block size and attribute bits equal the short-descriptor format; fault status '
          'encodings, DFSR/DFAR placement, the domain and AP tables, FCSE, the MMU-off flat map and the walk/check dispatch '
-         'are exact. The long-descriptor walk is judged on its loop structure only.',
+         'are exact. The stage-1 long-descriptor walk (PL1&0 regime) is decided for every input address, TTBR0/1, EPD0/1, '
+         'security state and three 64-bit descriptors per (T0SZ, T1SZ) pair (7 pairs quick, all 64 thorough): TTBR / start level '
+         'selection, descriptor address per level, fault level, block / page output address, hierarchical attribute bits and '
+         'result fields. Hyp / stage-2 regimes of that walk are judged on loop structure only.',
     note='Trusted: CPython ast; references coded in sa/props/c15.py from the ARM ARM; stage 2 and big-endian descriptor '
          'fetch not in play; hub / translation results symbolic.')
 
@@ -179,7 +183,8 @@ CLAIMS['C19'] = dict(
 CLAIMS['C20'] = dict(
     category='other', design_ref='DESIGN.md section 4 (C20)',
     technique='AST inventory of module/class-level mutable objects and of every run-time write to them, nondeterminism-source '
-              'scan, def-before-use dataflow of per-step scratch attributes over the emulate_cycle call tree, dataflow rule on '
+              'scan, def-before-use dataflow of per-step scratch attributes over the emulate_cycle call tree (incl. the Registers '
+              'markers the driver reads: reset unconditionally before the opcode executes), dataflow rule on '
               'the fetch-decode-execute pipeline, constructor freshness / closure rule',
     text='Structural necessary conditions of determinism and isolation: no run-time write to shared mutable state (one known '
          'finding: the configurations singleton reloaded by every constructor), no nondeterminism source, no per-instance '
@@ -192,7 +197,8 @@ CLAIMS['C18'] = dict(
     technique='exception-escape / error-discipline analysis: None-test dominance, exact decode-path host errors from the '
               'decode model, constructor binding, attribute definedness, flow-sensitive definite assignment with if/elif '
               'exhaustiveness from the table domain and the decode field sets, interval analysis of helper assertions and '
-              'register indices, raise-class and division-site inventories, width obligations against struct.error',
+              'register indices, raise-class and division-site inventories, width obligations against struct.error, '
+              'implicit-None-result rule (fall-off-the-end paths of value-returning functions vs. None tests at their call sites)',
     text='Every enumerated kind of host-error site reachable from a step is discharged: None results are tested before use; '
          'no decoder / from_bitarray path can raise a host error for any word; constructor calls bind; attributes exist; no '
          'local is read before assignment; helper assertions, register-index assertions and the banking lookup cannot fail for '
